@@ -5,7 +5,7 @@ CONSTANTS
   Ops = {"Create","StepR","StepR2","Rekey","IsValid","Close"}
   Lens = {1}
   PublishAtomic = TRUE
-  UnrefIsValid = TRUE
+  UnrefIsValid = FALSE
   InitMayFail = TRUE
   IsValidSync = FALSE
 INVARIANTS NoRaceButInited Mutex OnceOnly InitComplete RefBalance UseValid Distinct
